@@ -109,7 +109,7 @@ def django_setup():
     from django.db import connection
     from djapp import models
     with connection.schema_editor() as se:
-        for m in (models.Row, models.Org, models.Author, models.Post, models.Comment):
+        for m in (models.Row, models.Org, models.PostInfo, models.AuthorInfo, models.Author, models.Post, models.Comment):
             se.create_model(m)
     _django_ready = True
 
@@ -219,14 +219,16 @@ class RelDjango:
 
     def load(self, db):
         m = self.m
-        for model in (m.Comment, m.Post, m.Author, m.Org):
+        for model in (m.Comment, m.Post, m.Author, m.Org, m.PostInfo, m.AuthorInfo):
             model.objects.all().delete()
         m.Post.authors.through.objects.all().delete()
         m.Org.objects.bulk_create([m.Org(id=r["id"], name=_col(r["name"]), k=_col(r["k"])) for r in db["Org"]])
+        m.PostInfo.objects.bulk_create([m.PostInfo(id=r["id"], tag=_col(r["tag"])) for r in db["PostInfo"]])
+        m.AuthorInfo.objects.bulk_create([m.AuthorInfo(id=r["id"], tag=_col(r["tag"])) for r in db["AuthorInfo"]])
         m.Author.objects.bulk_create([m.Author(id=r["id"], name=_col(r["name"]), age=_col(r["age"]), rank=_col(r["rank"]),
-                                               org_id=_col(r["org"])) for r in db["Author"]])
-        m.Post.objects.bulk_create([m.Post(id=r["id"], title=_col(r["title"]), n=_col(r["n"]), author_id=_col(r["author"]))
-                                    for r in db["Post"]])
+                                               org_id=_col(r["org"]), info_id=_col(r["info"])) for r in db["Author"]])
+        m.Post.objects.bulk_create([m.Post(id=r["id"], title=_col(r["title"]), n=_col(r["n"]), author_id=_col(r["author"]),
+                                           info_id=_col(r["info"])) for r in db["Post"]])
         m.Comment.objects.bulk_create([m.Comment(id=r["id"], text=_col(r["text"]), k=_col(r["k"]), post_id=_col(r["post"]))
                                        for r in db["Comment"]])
         thr = m.Post.authors.through
@@ -257,6 +259,16 @@ class RelSa:
             k = sa.Column(sa.Integer)
             authors = relationship("Author", back_populates="org")
 
+        class PostInfo(Base):
+            __tablename__ = "post_info"
+            id = sa.Column(sa.Integer, primary_key=True)
+            tag = sa.Column(sa.String)
+
+        class AuthorInfo(Base):
+            __tablename__ = "author_info"
+            id = sa.Column(sa.Integer, primary_key=True)
+            tag = sa.Column(sa.String)
+
         class Author(Base):
             __tablename__ = "author"
             id = sa.Column(sa.Integer, primary_key=True)
@@ -265,6 +277,8 @@ class RelSa:
             rank = sa.Column(sa.Integer, nullable=False)
             org_id = sa.Column(sa.Integer, sa.ForeignKey("org.id"))
             org = relationship("Org", back_populates="authors")
+            info_id = sa.Column(sa.Integer, sa.ForeignKey("author_info.id"))
+            info = relationship("AuthorInfo")
             posts = relationship("Post", back_populates="author")
             edited = relationship("Post", secondary=post_editors, back_populates="authors")
 
@@ -275,6 +289,8 @@ class RelSa:
             n = sa.Column(sa.Integer)
             author_id = sa.Column(sa.Integer, sa.ForeignKey("author.id"))
             author = relationship("Author", back_populates="posts")
+            info_id = sa.Column(sa.Integer, sa.ForeignKey("post_info.id"))
+            info = relationship("PostInfo")
             authors = relationship("Author", secondary=post_editors, back_populates="edited")
             comments = relationship("Comment", back_populates="post")
 
@@ -286,7 +302,7 @@ class RelSa:
             post_id = sa.Column(sa.Integer, sa.ForeignKey("post.id"))
             post = relationship("Post", back_populates="comments")
 
-        self.models = {"Org": Org, "Author": Author, "Post": Post, "Comment": Comment}
+        self.models = {"Org": Org, "Author": Author, "Post": Post, "Comment": Comment, "PostInfo": PostInfo, "AuthorInfo": AuthorInfo}
         self.post_editors = post_editors
         self.Base = Base
         self.engine = sa.create_engine("sqlite://")
@@ -303,13 +319,15 @@ class RelSa:
     def load(self, db):
         sa, M, s = self.sa, self.models, self.session
         s.execute(sa.delete(self.post_editors))
-        for name in ("Comment", "Post", "Author", "Org"):
+        for name in ("Comment", "Post", "Author", "Org", "PostInfo", "AuthorInfo"):
             s.execute(sa.delete(M[name].__table__))
+        s.execute(sa.insert(M["PostInfo"].__table__), [dict(id=r["id"], tag=_col(r["tag"])) for r in db["PostInfo"]])
+        s.execute(sa.insert(M["AuthorInfo"].__table__), [dict(id=r["id"], tag=_col(r["tag"])) for r in db["AuthorInfo"]])
         s.execute(sa.insert(M["Org"].__table__), [dict(id=r["id"], name=_col(r["name"]), k=_col(r["k"])) for r in db["Org"]])
         s.execute(sa.insert(M["Author"].__table__), [dict(id=r["id"], name=_col(r["name"]), age=_col(r["age"]), rank=_col(r["rank"]),
-                                                          org_id=_col(r["org"])) for r in db["Author"]])
-        s.execute(sa.insert(M["Post"].__table__), [dict(id=r["id"], title=_col(r["title"]), n=_col(r["n"]), author_id=_col(r["author"]))
-                                                        for r in db["Post"]])
+                                                          org_id=_col(r["org"]), info_id=_col(r["info"])) for r in db["Author"]])
+        s.execute(sa.insert(M["Post"].__table__), [dict(id=r["id"], title=_col(r["title"]), n=_col(r["n"]), author_id=_col(r["author"]),
+                                                        info_id=_col(r["info"])) for r in db["Post"]])
         s.execute(sa.insert(M["Comment"].__table__), [dict(id=r["id"], text=_col(r["text"]), k=_col(r["k"]), post_id=_col(r["post"]))
                                                            for r in db["Comment"]])
         if db["editors"]:
